@@ -548,7 +548,13 @@ def step(ctx, rng, pool, allow_oob):
     elif op == "getitem_int" and n > 0:
         i = idx()
         ctx.log("getitem_int", i); ctx.op("getitem_int")
-        b, t = bl[i]
+        ii = i
+        if rng.random() < 0.4:
+            # the same position as a NumPy integer scalar (an element of an index array, rng.integers(...))
+            kinds = ["int64", "int32", "intp"] + (["uint8", "uint16"] if 0 <= i < 256 else []) + (["int8"] if -128 <= i < 128 else [])
+            ii = np.dtype(str(rng.choice(kinds))).type(i)
+            ctx.op("getitem_int_numpy_scalar")
+        b, t = bl[ii]
         if set(zip((int(x) for x in b), (int(x) for x in t))) != m.neighbours(m.resolve(i)):
             ctx.fail("views_vs_model", "bl[%d] differs from model neighbours" % i)
     elif op == "copy":
